@@ -13,7 +13,7 @@
    A finite graph is a node list V closed under `outgoing`; nothing else is assumed: cycles,
    self-loops, diamonds, duplicate successors, any iteration order, any item sets. *)
 From Coq Require Import List ZArith Bool.
-From CyVerif Require Import Lib.CInt Model.M_DepTree Proof.P_DepTree.
+From CyVerif Require Import Lib.CInt Model.M_DepTree Proof.P_DepTree Model.M_DepScan Proof.P_DepScan.
 Import ListNotations.
 
 (* Main theorem.  Any sequence of all_dependencies() queries on one tree, starting from the empty
@@ -123,6 +123,137 @@ Theorem C46_from_cimport_scan_fixed :
       (b = true <-> exists x, In x wit_files_read /\ (c_ts < ts x)%Z).
 Proof. exact from_cimport_scan_fixed. Qed.
 Print Assumptions C46_from_cimport_scan_fixed.
+
+(* ------------------------------------------------------------------------------------------------
+   Second region: extraction of the graph from sources (Model/M_DepScan.v, Proof/P_DepScan.v).
+   Vocabulary: a str is a list of characters with 0 = '.'; ident w = w is non-empty and has no dot;
+   render level path = level dots followed by '.'.join(path) (the text after "from" / "cimport");
+   import_rule level path pkg = the qualified name Python's / Cython's import rule gives to
+   (level, path) inside package pkg (None: beyond the top-level package);
+   scan r stmts = what parse_dependencies records; find_pxd_cands f module pkg = the qualified names
+   find_pxd hands to Context.find_pxd_file, in order (f: finding repaired or not, see below). *)
+
+(* parse_dependencies + find_pxd, "from <level dots><path> cimport ..., w, ...": for EVERY level >= 1
+   within the package depth and EVERY module path (the empty one included) the "package.name"
+   candidate of w is recorded, and find_pxd resolves it to exactly the submodule the import rule names. *)
+Theorem C46_from_cimport_submodule_tracked :
+  forall (fixed : bool) (level : nat) (path names pkg : list str) (w : str),
+    1 <= level -> level <= length pkg -> idents path -> ident w -> In w names ->
+    exists c q,
+      In c (sc_cimports (scan SepEndsWithDot [SFrom (render level path) names])) /\
+      import_rule level (path ++ [w]) pkg = Some q /\
+      find_pxd_cands fixed c pkg = Some [join_dots q].
+Proof. exact from_cimport_submodule_tracked. Qed.
+Print Assumptions C46_from_cimport_submodule_tracked.
+
+(* the same for an absolute "from a.b cimport w": candidates package-of-the-file first, then absolute *)
+Theorem C46_from_cimport_submodule_tracked_abs :
+  forall (fixed : bool) (path names pkg : list str) (w : str),
+    path <> [] -> idents path -> ident w -> In w names ->
+    exists c,
+      In c (sc_cimports (scan SepEndsWithDot [SFrom (render 0 path) names])) /\
+      find_pxd_cands fixed c pkg = Some [join_dots (pkg ++ path ++ [w]); join_dots (path ++ [w])].
+Proof. exact from_cimport_submodule_tracked_abs. Qed.
+Print Assumptions C46_from_cimport_submodule_tracked_abs.
+
+(* the separator rule "sep = '' only if <from> == '.'" is wrong: for "from .. cimport s" inside p.q no
+   recorded candidate resolves to p.s (whichever variant of find_pxd) *)
+Theorem C46_sep_only_one_dot_refuted :
+  exists level path names pkg w q,
+    1 <= level /\ level <= length pkg /\ idents path /\ ident w /\ In w names /\ idents pkg /\
+    import_rule level (path ++ [w]) pkg = Some q /\
+    forall fixed c, In c (sc_cimports (scan SepOnlyOneDot [SFrom (render level path) names])) ->
+                    find_pxd_cands fixed c pkg <> Some [join_dots q].
+Proof. exact sep_only_one_dot_refuted. Qed.
+Print Assumptions C46_sep_only_one_dot_refuted.
+
+(* find_pxd on a relative name with a module part: one candidate, the import rule's name *)
+Theorem C46_resolve_relative :
+  forall fixed level path pkg,
+    1 <= level -> level <= length pkg -> path <> [] -> idents path ->
+    exists q, import_rule level path pkg = Some q /\
+              find_pxd_cands fixed (render level path) pkg = Some [join_dots q].
+Proof. exact resolve_relative. Qed.
+Print Assumptions C46_resolve_relative.
+
+Theorem C46_resolve_absolute :
+  forall fixed path pkg, path <> [] -> idents path ->
+    find_pxd_cands fixed (render 0 path) pkg = Some [join_dots (pkg ++ path); join_dots path].
+Proof. exact resolve_absolute. Qed.
+Print Assumptions C46_resolve_absolute.
+
+(* Finding bare_dots_package_off_by_one: "from . cimport x" records "." (the package whose
+   __init__.pxd the compiler reads); the code as it is resolves dots-only names one package too high
+   (C46_resolve_dots_only_as_is; witness C46_dots_only_refuted replayed by props/C46.py); the repaired
+   find_pxd (proposed_fixes/C46-bare_dots_package_off_by_one.diff) obeys the rule for every level. *)
+Theorem C46_resolve_dots_only_as_is :
+  forall level pkg, 1 <= level ->
+    find_pxd_cands false (render level []) pkg
+    = if level <=? length pkg then Some [join_dots (firstn (length pkg - level) pkg)] else None.
+Proof. exact resolve_dots_only_as_is. Qed.
+Print Assumptions C46_resolve_dots_only_as_is.
+
+Theorem C46_dots_only_refuted :
+  exists level pkg q, 1 <= level /\ level <= length pkg /\ idents pkg /\
+    import_rule level [] pkg = Some q /\
+    find_pxd_cands false (render level []) pkg <> Some [join_dots q].
+Proof. exact dots_only_refuted. Qed.
+Print Assumptions C46_dots_only_refuted.
+
+Theorem C46_resolve_dots_only_fixed :
+  forall level pkg, 1 <= level -> level <= length pkg ->
+    exists q, import_rule level [] pkg = Some q /\
+              find_pxd_cands true (render level []) pkg = Some [join_dots q].
+Proof. exact resolve_dots_only_fixed. Qed.
+Print Assumptions C46_resolve_dots_only_fixed.
+
+(* find_pxd over any file system vs the file the compiler opens.  Relative names: always equal. *)
+Theorem C46_find_pxd_relative_matches_compiler :
+  forall fixed ll3 fs level path pkg,
+    1 <= level -> level <= length pkg -> path <> [] -> idents path ->
+    find_pxd fixed fs (render level path) pkg = compiler_resolve ll3 fs level path pkg.
+Proof. exact find_pxd_relative_matches_compiler. Qed.
+Print Assumptions C46_find_pxd_relative_matches_compiler.
+
+(* Absolute names.  Full statement (false under language_level 3):
+     forall fixed ll3 fs path pkg, path <> [] -> idents path ->
+       find_pxd fixed fs (render 0 path) pkg = compiler_resolve ll3 fs 0 path pkg.
+   Proved: under language_level 2 always; under 3 when the importing file is not in a package or no
+   module of that name exists inside its package.  The rest is finding
+   absolute_cimport_shadowed_by_package_sibling (C46_find_pxd_absolute_ll3_refuted). *)
+Theorem C46_find_pxd_absolute_matches_compiler_partial :
+  forall fixed ll3 fs path pkg, path <> [] -> idents path ->
+    ll3 = false \/ pkg = [] \/ fs (join_dots (pkg ++ path)) = false ->
+    find_pxd fixed fs (render 0 path) pkg = compiler_resolve ll3 fs 0 path pkg.
+Proof. exact find_pxd_absolute_matches_compiler_partial. Qed.
+Print Assumptions C46_find_pxd_absolute_matches_compiler_partial.
+
+Theorem C46_find_pxd_absolute_ll3_refuted :
+  exists fs path pkg, path <> [] /\ idents path /\ idents pkg /\
+    forall fixed, find_pxd fixed fs (render 0 path) pkg <> compiler_resolve true fs 0 path pkg.
+Proof. exact find_pxd_absolute_ll3_refuted. Qed.
+Print Assumptions C46_find_pxd_absolute_ll3_refuted.
+
+(* package(filename) = the maximal run of package directories directly above the file *)
+Theorem C46_package_of_spec :
+  forall dirs, exists n, n <= length dirs /\
+    package_of dirs = rev (map fst (firstn n dirs)) /\
+    Forall (fun d => snd d = true) (firstn n dirs) /\
+    (forall d, nth_error dirs n = Some d -> snd d = false).
+Proof. exact package_of_spec. Qed.
+Print Assumptions C46_package_of_spec.
+
+Example C46_scan_nonvacuous :
+  idents [[7]] /\ ident [8] /\
+  sc_cimports (scan SepEndsWithDot [SFrom (render 2 []) [[8]]; SFrom (render 1 [[7]]) [[8]; [9]]; SCimport [[7; 0; 8]]])
+    = [[0; 0]; [0; 0; 8]; [0; 7]; [0; 7; 0; 8]; [0; 7; 0; 9]; [7; 0; 8]] /\
+  find_pxd_cands false [0; 0; 8] [[1]; [2]] = Some [[1; 0; 8]] /\
+  find_pxd_cands false [0; 0; 0; 8] [[1]; [2]] = Some [[8]] /\
+  find_pxd_cands false [0; 0; 0; 0; 8] [[1]; [2]] = None.
+Proof.
+  split; [constructor; [apply ident_single; discriminate|constructor]|].
+  split; [apply ident_single; discriminate|]. vm_compute. repeat split.
+Qed.
 
 (* non-vacuity (graphs ex_out / ex_cyc of Model/M_DepTree.v): a 2-cycle below a diamond and a self-loop; queried 3, 0, 1 on one
    cache.  Hypotheses hold; answers as computed; and the fuel bound |V|+1 is not slack: with
